@@ -18,6 +18,7 @@ inductive Pc
   | pkCreate (rem : Nat)                                     -- pool size reserved: pthread_create × rem
   | wStart                                                   -- a created thread before its decrement of dgq_pending
   | wRun                                                     -- draining / parked on the mediator
+  | wContend                                                 -- backing off in __DISPATCH_ROOT_QUEUE_CONTENDED_WAIT__: holds one unit of dgq_pending
   | wExit                                                    -- after the pool size increment, before its poke
 deriving DecidableEq
 
@@ -72,7 +73,10 @@ def step (sh : Sh) (t : Tid) (pc : Pc) (op : Op) : List (Sh × Pc) :=
   | .pkCreate rem =>
     [({ sh with starting := sh.starting + rem, reserved := dropT sh.reserved t }, .idle)]
   | .wStart => [({ sh with pending := sh.pending - 1, booting := sh.booting.erase t }, .wRun)]
-  | .wRun => [(sh, .wRun), ({ sh with pool := sh.pool + 1 }, .wExit)]
+  | .wRun => [(sh, .wRun), ({ sh with pool := sh.pool + 1 }, .wExit),
+              -- serious contention on the list head: "mark this queue as pending to avoid requests for further threads"
+              ({ sh with pending := sh.pending + 1, reserved := (t, 1) :: sh.reserved }, .wContend)]
+  | .wContend => [({ sh with pending := sh.pending - 1, reserved := dropT sh.reserved t }, .wRun)]
   | .wExit => [(sh, .pkPending 1 0), (sh, .idle)]                  -- the exiting worker's re-poke (if the queue is not empty)
 
 structure St where
@@ -90,6 +94,7 @@ inductive Reachable (pool0 : Int) (oc : Bool) : St → Prop
 /-- what a poker's pc says it holds of dgq_pending -/
 def holdsRes : Pc → Option Nat
   | .pkLoad r _ | .pkLoop r _ _ | .pkCas r _ _ | .pkCreate r => some r
+  | .wContend => some 1
   | _ => none
 
 /-- entries of `reserved` per thread -/
@@ -276,10 +281,25 @@ theorem inv_step {s s' : St} (i : Inv s) (h : Step s s') : Inv s' := by
     | wRun =>
       rw [hpc] at h ownt boott
       simp at boott
+      simp only [holdsRes] at ownt
       simp [step] at h
-      rcases h with ⟨rfl, rfl⟩ | ⟨rfl, rfl⟩
+      rcases h with ⟨rfl, rfl⟩ | ⟨rfl, rfl⟩ | ⟨rfl, rfl⟩
       · exact fin _ _ acct (by simpa [holdsRes] using ownt) (fun _ _ => rfl) (by simpa using boott) (fun _ _ => rfl)
       · exact fin _ _ acct (by simpa [holdsRes] using ownt) (fun _ _ => rfl) (by simpa using boott) (fun _ _ => rfl)
+      · refine fin _ _ ?_ ?_ ?_ (by simpa using boott) (fun _ _ => rfl)
+        · simp [sumRes]; omega
+        · rw [resOf_cons_self, ownt]; simp [holdsRes]
+        · intro u hu; exact resOf_cons_ne _ _ _ _ hu
+    | wContend =>
+      rw [hpc] at h ownt boott
+      simp only [holdsRes] at ownt
+      simp at boott
+      have hsum : (resOf s.sh.reserved t).sum = 1 := by rw [ownt]; simp
+      simp [step] at h; obtain ⟨rfl, rfl⟩ := h
+      refine fin _ _ ?_ ?_ ?_ (by simpa using boott) (fun _ _ => rfl)
+      · simp only []; omega
+      · simp [resOf_dropT_self, holdsRes]
+      · intro u hu; exact resOf_dropT_ne _ _ _ hu
     | wExit =>
       rw [hpc] at h ownt boott
       simp at boott
